@@ -34,7 +34,7 @@ fn strat() -> impl Strategy<Value = Case> {
             if force[i % 5] && !pass.is_empty() {
                 let tgt = Src::Stream(pass[i % pass.len()]);
                 match &mut prog.streams[i] {
-                    Shape::Filter { src, .. } | Shape::Agg { src, .. } | Shape::Distinct { src } | Shape::Limit { src, .. } => *src = tgt,
+                    Shape::Filter { src, .. } | Shape::Agg { src, .. } | Shape::Distinct { src } | Shape::Limit { src, .. } | Shape::Process { src } => *src = tgt,
                     _ => {}
                 }
             }
@@ -129,6 +129,11 @@ fn expected(p: &Prog, evs: &[Ev]) -> Vec<(String, String, i64)> {
                         } else {
                             None
                         }
+                    }
+                    Shape::Process { .. } => {
+                        // gen2(): two events per input (id 0 and 1, v = id, s = "x")
+                        queue.push_back((Item { ty: sname(i), id: 0, v: 0, s: "x".into() }, depth + 1));
+                        Some(Item { ty: sname(i), id: 1, v: 1, s: "x".into() })
                     }
                     _ => None, // leaves: nobody consumes their outputs in this grammar
                 };
@@ -245,6 +250,7 @@ fn run(c: &Case) -> Outcome {
         .class_if(derived_deliveries > 0, "derived_delivery")
         .class(format!("chain_depth={}", depth))
         .class_if(c.prog.streams.iter().any(|s| matches!(s, Shape::Filter { emit: Emit::None, .. })), "has_noemit_stream")
+        .class_if(c.prog.streams.iter().any(|s| matches!(s, Shape::Process { .. })), "has_process_stream")
 }
 
 fn main() {
